@@ -631,7 +631,7 @@ def check_c16(res, tier, rng):
     broken = prepare(res, 'C16', cfgs)
     if 'harness' in broken:
         finish_verdict(res, broken, [], 'L0'); return
-    cases = g_mid(rng, scale(tier, 700, 8000)) + g_rand(rng, scale(tier, 500, 6000)) + g_seam(rng, scale(tier, 200, 2000)) + g_trunc(rng, scale(tier, 200, 2000)) + g_sub(rng, scale(tier, 100, 1000))
+    cases = g_mid(rng, scale(tier, 700, 8000)) + g_rand(rng, scale(tier, 500, 6000)) + g_seam(rng, scale(tier, 200, 2000)) + g_trunc(rng, scale(tier, 200, 2000)) + g_sub(rng, scale(tier, 100, 1000)) + g_zlimb(rng, scale(tier, 150, 1500))
     cases = [c for c in dedupe(cases) if is_valid(c.i, c.f, c.e)]
     lines, base_idx = [], []
     for c in cases:
